@@ -431,24 +431,41 @@ def BVNand (l r : Term) : R := do BVNot (← BVAnd [l, r])
 def BVNor (l r : Term) : R := do BVNot (← BVOr [l, r])
 def BVXnor (l r : Term) : R := do BVNot (← BVXor l r)
 
-/-- `BVSMod` (formula.py:951-994): the SMT-LIB abbreviation, statement by statement -/
+/-- `BVSMod` (formula.py:951-994): the SMT-LIB abbreviation, statement by statement, in the
+evaluation order of the Python code. `BV("#b0")` / `BV("#b1")` are the one-bit constants
+`BV(0, 1)` / `BV(1, 1)` (the string form is `BVStr`, exercised separately by K). -/
 def BVSMod (s t : Term) : R := do
   let m ← bvWidth s
-  let zero1 ← BVStr "#b0"
-  let one1 ← BVStr "#b1"
+  let zero1 ← BV 0 1
+  let one1 ← BV 1 1
   let msbS ← BVExtract s ((m : Int) - 1) (some ((m : Int) - 1))
   let msbT ← BVExtract t ((m : Int) - 1) (some ((m : Int) - 1))
-  let absS ← Ite (← Equals msbS zero1) s (← BVNeg s)
-  let absT ← Ite (← Equals msbT zero1) t (← BVNeg t)
+  let sPos ← Equals msbS zero1
+  let negS ← BVNeg s
+  let absS ← Ite sPos s negS
+  let tPos ← Equals msbT zero1
+  let negT ← BVNeg t
+  let absT ← Ite tPos t negT
   let u ← BVURem absS absT
-  let cond1 ← Equals u (← BV 0 m)
-  let cond2 ← And [← Equals msbS zero1, ← Equals msbT zero1]
-  let cond3 ← And [← Equals msbS one1, ← Equals msbT zero1]
-  let cond4 ← And [← Equals msbS zero1, ← Equals msbT one1]
-  let case3 ← BVAdd [← BVNeg u, t]
+  let zeroM ← BV 0 m
+  let cond1 ← Equals u zeroM
+  let c2a ← Equals msbS zero1
+  let c2b ← Equals msbT zero1
+  let cond2 ← And [c2a, c2b]
+  let c3a ← Equals msbS one1
+  let c3b ← Equals msbT zero1
+  let cond3 ← And [c3a, c3b]
+  let c4a ← Equals msbS zero1
+  let c4b ← Equals msbT one1
+  let cond4 ← And [c4a, c4b]
+  let negU ← BVNeg u
+  let case3 ← BVAdd [negU, t]
   let case4 ← BVAdd [u, t]
   let case5 ← BVNeg u
-  Ite (← Or [cond1, cond2]) u (← Ite cond3 case3 (← Ite cond4 case4 case5))
+  let c12 ← Or [cond1, cond2]
+  let inner ← Ite cond4 case4 case5
+  let mid ← Ite cond3 case3 inner
+  Ite c12 u mid
 
 def repeatChain (f : Term) (res : Term) : Nat → R
   | 0 => .ok res
@@ -687,13 +704,14 @@ inductive S
   | assign (v : String) (e : E)
   | ite (c : C) (t f : List S)
   | assertFNode (e : E)            -- `assert isinstance(e, FNode)`
-  | raise (cls : String)
+  | raise (e : Err)                -- `raise Cls(…)`, the class mapped by the generator
   | opaque (hash : String)         -- body outside the language: modelled by hand, pinned by its AST hash
   deriving Repr, Inhabited
 
 structure Method where
-  params : List String
-  body   : List S
+  params  : List String
+  varargs : Bool                   -- `*args` (then `params = []`)
+  body    : List S
   deriving Repr, Inhabited
 
 abbrev Table := List (String × Method)
@@ -738,7 +756,7 @@ def S.beqL : List S → List S → Bool
   | _, _ => false
 end
 
-def Method.beq (a b : Method) : Bool := a.params == b.params && S.beqL a.body b.body
+def Method.beq (a b : Method) : Bool := a.params == b.params && a.varargs == b.varargs && S.beqL a.body b.body
 
 def Table.lookup (tbl : Table) (name : String) : Option Method :=
   (tbl.find? (fun e => e.1 == name)).map (·.2)
@@ -883,12 +901,7 @@ def exec (tbl : Table) : Nat → String → Term → List Arg → Env → List S
   | n + 1, nm, self, as, env, .assertFNode e :: rest => do
     let r ← evalE tbl n self env e
     if isFNodeArg r then exec tbl n nm self as env rest else .error .assertion
-  | _ + 1, _, _, _, _, .raise cls :: _ =>
-    .error (if cls == "PysmtModeError" then .mode
-            else if cls == "UnsupportedOperatorError" then .unsupported
-            else if cls == "PysmtValueError" then .value
-            else if cls == "PysmtTypeError" then .type
-            else .other)
+  | _ + 1, _, _, _, _, .raise e :: _ => .error e
   | _ + 1, nm, self, as, _, .opaque h :: _ =>
     if nm == "__call__" && alignedHashes.contains (nm, h) then (callModel self as).map .t
     else .error .unmodelled
@@ -900,14 +913,9 @@ def runMethod (tbl : Table) : Nat → String → Term → List Arg → Except Er
     match tbl.lookup name with
     | .none => .error .unmodelled
     | some m =>
-      match m.params with
-      | [p] =>
-        if p.startsWith "*" then exec tbl n name self args [] m.body      -- `*args`
-        else if args.length ≠ 1 then .error .pyType
-        else exec tbl n name self args (m.params.zip args) m.body
-      | ps =>
-        if ps.length ≠ args.length then .error .pyType
-        else exec tbl n name self args (ps.zip args) m.body
+      if m.varargs then exec tbl n name self args [] m.body
+      else if m.params.length ≠ args.length then .error .pyType
+      else exec tbl n name self args (m.params.zip args) m.body
 end
 
 /-- fuel used by the driver and in the theorems (deepest nesting in fnode.py is < 12) -/
